@@ -234,6 +234,39 @@ fn sequences(ctx: &Ctx, rounds: u64) {
                 );
             }
         }
+        // (b2) the forbidden form out of a macro whose body line is the mnemonic with its operands as parameters,
+        // called first with the operands of an allowed form of the same mnemonic: every expansion is looked at
+        for fi in forbidden.iter() {
+            let f = &forms[*fi];
+            let siblings: Vec<usize> = allowed.iter().cloned().filter(|a| forms[*a].mn == f.mn && forms[*a].ops.len() == f.ops.len()).collect();
+            if siblings.is_empty() || f.ops.is_empty() {
+                continue;
+            }
+            let sib = &forms[*rng.pick(&siblings)];
+            let (ts, tf) = (tuple(sib, &mut rng), tuple(f, &mut rng));
+            let operands = |t: String| t.split_once(' ').map(|(_, o)| o.to_string()).unwrap_or_default();
+            let params: Vec<String> = (0..f.ops.len()).map(|i| format!("@{}", i)).collect();
+            let times = 1 + rng.usize(3);
+            let src = format!(
+                "{}.macro through_parameters\n\t{} {}\n.endm\n{}\tthrough_parameters {}\n\tnop\n",
+                select_device(rng.below(DEVICE_ROUTES), name),
+                f.mn,
+                params.join(", "),
+                format!("\tthrough_parameters {}\n", operands(sib.text(&ts))).repeat(times),
+                operands(f.text(&tf))
+            );
+            let out = fw::build_str(&src);
+            ctx.eval(1);
+            ctx.count("forbidden_form_through_macro_parameters_after_allowed_calls", 1);
+            if !out.is_err() {
+                let flag = devices::forbidding_flag(dev, &f.name).map(|x| format!("{:?}", x)).unwrap_or_default();
+                ctx.violation(
+                    format!("gate/{}/{}/accepted-through-macro-parameters-after-allowed-calls", flag, f.name),
+                    format!("`{}` assembled on {} (which has {}) out of a macro that was called with `{}` before", f.text(&tf), name, flag, operands(sib.text(&ts))),
+                    json!({"source": src, "device": name, "sequence": true, "must_build": false}),
+                );
+            }
+        }
         // (c) every kind of inert line, placed between `.device` and a forbidden form
         if !forbidden.is_empty() && *round == 0 {
             for kind in 0..INERT_KINDS {
@@ -302,7 +335,7 @@ pub fn run(ctx: &Ctx) -> i32 {
     ctx.exhaustive.store(true, std::sync::atomic::Ordering::Relaxed);
     fw::finish(
         ctx,
-        "every device of DEVICES x every instruction form of the reference ISA (the lds/sts form of the device's core) x lowest and highest legal operand tuple (thorough: + 256 random tuples); forbidden iff a flag of the device forbids the form per the DisabledOptions documentation; plus per device 3 (thorough 200) whole programs of 10-40 allowed instructions (must build to the concatenated encodings) and, for every forbidden form, a program where it follows 1-6 allowed instructions incl. allowed forms of the same mnemonic, with non-empty data / EEPROM segments before and between the code (must fail); in these programs the part is selected in one of 7 ways (the line itself; as the body of a macro, of a nested macro, of a macro that takes the name as argument; in a selected branch) and a third of the must-fail programs name the part a second time; distinct_nontrivial = distinct (device, form) pairs",
+        "every device of DEVICES x every instruction form of the reference ISA (the lds/sts form of the device's core) x lowest and highest legal operand tuple (thorough: + 256 random tuples); forbidden iff a flag of the device forbids the form per the DisabledOptions documentation; plus per device 3 (thorough 200) whole programs of 10-40 allowed instructions (must build to the concatenated encodings) and, for every forbidden form, a program where it follows 1-6 allowed instructions incl. allowed forms of the same mnemonic, with non-empty data / EEPROM segments before and between the code (must fail); in these programs the part is selected in one of 7 ways (the line itself; as the body of a macro, of a nested macro, of a macro that takes the name as argument; in a selected branch) and a third of the must-fail programs name the part a second time; every forbidden form that has an allowed sibling of the same mnemonic also out of a macro with the operands as parameters, after 1-3 calls with the sibling's operands; distinct_nontrivial = distinct (device, form) pairs",
         &["flag→forms map transcribed from the doc comments of DisabledOptions (refmodel/devices.rs); flags read from the DEVICES table at run time, as the statement says"],
     )
 }
